@@ -17,8 +17,8 @@ from .interp import _Break, _Continue, PathCut
 
 
 class LoopSpec:
-    def __init__(self, name, havoc, inv, facts=None, elem=None, ghost_step=None):
-        self.name, self.havoc, self.inv, self.facts, self.elem, self.ghost_step = name, havoc, inv, facts, elem, ghost_step
+    def __init__(self, name, havoc, inv, facts=None, elem=None, ghost_step=None, init=None):
+        self.name, self.havoc, self.inv, self.facts, self.elem, self.ghost_step, self.init = name, havoc, inv, facts, elem, ghost_step, init
 
     def _length(self, E, it):
         if isinstance(it, SSeq):
@@ -79,6 +79,8 @@ class LoopSpec:
 
     def run_while(self, E, node, fr):
         """while loops: index i counts completed iterations; the spec's inv must imply what is needed at exit."""
+        if self.init:
+            self.init(E, fr)          # ghost state initialised from the program state at loop entry
         E.require("%s.inv_on_entry" % self.name, self.inv(E, fr, z3.IntVal(0)), kind="inv")
         i = E.fresh_int("i")
         E.assume(i >= 0)
@@ -94,6 +96,8 @@ class LoopSpec:
                 pass
             except _Break:
                 return
+            if self.ghost_step:
+                self.ghost_step(E, fr, i)
             E.require("%s.inv_preserved" % self.name, self.inv(E, fr, i + 1), kind="inv")
             raise PathCut()
         if node.orelse:
